@@ -13,10 +13,11 @@
 #endif
 int g_lock_depth[VF_NLOCKS + 1];
 long g_lock_ops;                 /* ghost: number of lock+unlock operations */
-#define VF_LOCK_COOKIE(k) ((void *)(uintptr_t)(k))
+static char vf_lockobj_[VF_NLOCKS + 1];   /* lock cookies are addresses of these bytes (never dereferenced by libevent) */
+#define VF_LOCK_COOKIE(k) ((void *)&vf_lockobj_[k])
 static int vf_lock(unsigned mode, void *lock)
 {
-	uintptr_t k = (uintptr_t)lock;
+	long k = (char *)lock - &vf_lockobj_[0];
 	__CPROVER_assert(k >= 1 && k <= VF_NLOCKS, "lock(): argument is a lock of this unit");
 	if (k >= 1 && k <= VF_NLOCKS) g_lock_depth[k]++;
 	g_lock_ops++;
@@ -24,7 +25,7 @@ static int vf_lock(unsigned mode, void *lock)
 }
 static int vf_unlock(unsigned mode, void *lock)
 {
-	uintptr_t k = (uintptr_t)lock;
+	long k = (char *)lock - &vf_lockobj_[0];
 	__CPROVER_assert(k >= 1 && k <= VF_NLOCKS, "unlock(): argument is a lock of this unit");
 	if (k >= 1 && k <= VF_NLOCKS) {
 		__CPROVER_assert(g_lock_depth[k] > 0, "unlock(): the lock is held");
@@ -39,5 +40,6 @@ struct evthread_condition_callbacks evthread_cond_fns_;
 unsigned long (*evthread_id_fn_)(void);
 int evthread_lock_debugging_enabled_;
 #endif
-#define VF_INSTALL_LOCKS() do { evthread_lock_fns_.lock = vf_lock; evthread_lock_fns_.unlock = vf_unlock; } while (0)
+/* also resets the ghost state: under --dfcc every static starts nondeterministic */
+#define VF_INSTALL_LOCKS() do { int k_; evthread_lock_fns_.lock = vf_lock; evthread_lock_fns_.unlock = vf_unlock; for (k_ = 0; k_ <= VF_NLOCKS; k_++) g_lock_depth[k_] = 0; g_lock_ops = 0; evthread_lock_debugging_enabled_ = 0; } while (0)
 #endif
